@@ -542,6 +542,10 @@ class BinaryQuery(CompoundQuery):
 
         return self.__class__(a, b)
 
+    def simplify(self, ixreader):
+        return self.__class__(self.a.simplify(ixreader),
+                              self.b.simplify(ixreader)).normalize()
+
     def matcher(self, searcher, context=None):
         return self.matcherclass(self.a.matcher(searcher, context),
                                  self.b.matcher(searcher, context))
